@@ -713,3 +713,29 @@ package rosmar
 //@   ensures [C19:NextBytes.renders-row] !isnull(result) ==> renders(result, iter.columnNames, iter.columnVals)
 //@   ensures [C19:NextBytes.one-row-per-call] !isnull(result) ==> count("rows.next") == 1 && count("rows.scan") == 1
 //@   ensures [C19:NextBytes.end] count("rows.end") == 1 ==> isnull(result)
+
+// ---------------------------------------------------------------------------------------------------------------
+// views.go / designdoc.go (C12: the incremental index is told about exactly the right documents; the map pipeline,
+// collation and reduce are external and not reached)
+
+//@ fn (*Collection).findView
+//@   modular
+//@   ensures [C12:findView.result] err == nil ==> view != nil
+//@   ensures [C12,C20:findView.unlocked] any: nolocks()
+//@ fn parallelize
+//@   modular
+//@   flag trusted=goroutine-pool
+//@
+//@ fn (*Collection).updateView
+//@   let v = callretval("Collection.findView", 0)
+//@   loop 1001 invariant [C12:updateView.rows-loop] true
+//@   loop 1002 invariant [C12:updateView.row-loop] true
+//@   loop 1002 body [C12:updateView.insert-for-this-view] iter("sql") == 1 && stmtCount("insert", "mapped") >= 1
+//@   ensures [C03,C10,C12:updateView.onetxn]  oneTxn() && sqlAllInTxn() && lockedThroughout("c.bucket.mutex")
+//@   ensures [C12:updateView.reads-view-in-txn] count("call:Collection.findView") <= 1 && (count("call:Collection.findView") == 1 ==> callarg("Collection.findView", 0) == c && callarg("Collection.findView", 3) == designDoc && callarg("Collection.findView", 4) == viewName)
+//@   ensures [C11,C12:updateView.delete-stale] stmtCount("delete", "mapped") >= 1 ==> (forall w: Int :: forall o: DocId :: stmtWhereOn("delete", "mapped", 0, "view", w, o) <==> (w == v.id && docAt(o).present && o.coll == c.id && docAt(o).cas > v.lastCas))
+//@   ensures [C11,C12:updateView.select-changed] cursorCount() >= 1 ==> (forall o: DocId :: cursorWhere(0, o) <==> (docAt(o).present && o.coll == c.id && docAt(o).cas > v.lastCas && (!isnull(docAt(o).value) || !isnull(docAt(o).xattrs))))
+//@   ensures [C12:updateView.marks-indexed]  err == nil && stmtCount("update", "views") >= 1 ==> stmtParamOf("update", "views", 0, "lastCas") == collLast(c.id) && stmtParamOf("update", "views", 0, "where:id") == v.id
+//@   ensures [C12:updateView.complete]       err == nil && stmtCount("delete", "mapped") >= 1 ==> stmtCount("update", "views") == 1 && cursorCount() == 1
+//@   ensures [C12:updateView.skip-only-if-fresh] err == nil && stmtCount("delete", "mapped") == 0 && count("call:Collection.findView") == 1 && callret("Collection.findView", 1) == nil ==> collLast(c.id) == v.lastCas
+//@   ensures [C20:updateView.unlocked]       any: nolocks()
